@@ -136,6 +136,24 @@ def norm(e):
                 n = {"k": "While", "cond": norm(b["cond"]), "body": norm(b["then"])}
                 _meta(n, e)
                 return _drop_desugar_exp(n, "desugar:WhileLoop")
+    # ---- `loop { if c { break } rest.. }` -> `while !c { rest.. }` ------------
+    if k == "Loop":
+        body = e["body"]
+        if body.get("k") == "Block" and body.get("stmts") and body["stmts"][0].get("k") == "Expr":
+            first = body["stmts"][0]["e"]
+            if isinstance(first, dict) and first.get("k") == "If" and first.get("else") is None:
+                t = unblock(first["then"])
+                t_stmt = t
+                if t.get("k") == "Block" and len(t.get("stmts", [])) == 1 and not t.get("expr"):
+                    t_stmt = t["stmts"][0].get("e")
+                if isinstance(t_stmt, dict) and t_stmt.get("k") == "Break" and t_stmt.get("e") is None:
+                    neg = _negate(first["cond"])
+                    if neg is not None:
+                        rest = dict(body)
+                        rest["stmts"] = body["stmts"][1:]
+                        n = {"k": "While", "cond": norm(neg), "body": norm(rest), "from_loop": True}
+                        _meta(n, e)
+                        return n
     # ---- overloaded == / != --------------------------------------------------
     if k == "Call":
         fn = e.get("fn") or {}
@@ -167,6 +185,18 @@ def norm(e):
         else:
             out[key] = v
     return out
+
+
+def _negate(c):
+    c = unblock(c)
+    flip = {"Eq": "Ne", "Ne": "Eq", "Lt": "Ge", "Ge": "Lt", "Gt": "Le", "Le": "Gt"}
+    if c.get("k") == "Binary" and c["op"] in flip:
+        n = dict(c)
+        n["op"] = flip[c["op"]]
+        return n
+    if c.get("k") == "Unary" and c["op"] == "Not":
+        return c["e"]
+    return None
 
 
 def _walk_raw(node):
